@@ -517,6 +517,9 @@ fn quiesce(world: &mut World, step: usize) -> Value
     })
 }
 
+/// More events than any terminating program of the configured sizes produces (the longest are a few thousand).
+const EVENT_LIMIT: usize = 60_000;
+
 /// Result of running one program.
 pub struct Outcome
 {
@@ -530,6 +533,8 @@ pub struct Outcome
 pub fn run_program(cfg: &Config, steps: &mut dyn Iterator<Item = Step>, source: Box<dyn ScriptSource>) -> Outcome
 {
     bevy_cobweb::verif::install();
+    // a reaction tree that does not terminate ends as a caught panic (recorded with runaway = 1), not as memory exhaustion
+    bevy_cobweb::verif::set_limit(EVENT_LIMIT);
     SOURCE.with(|s| *s.borrow_mut() = Some(source));
 
     let mut app = App::new();
@@ -608,7 +613,9 @@ pub fn run_program(cfg: &Config, steps: &mut dyn Iterator<Item = Step>, source: 
         if let Err(err) = res
         {
             let msg = err.downcast_ref::<String>().cloned().or_else(|| err.downcast_ref::<&str>().map(|s| s.to_string())).unwrap_or_default();
-            emit(json!({"t":"panic","msg":msg}));
+            let runaway = msg.starts_with(bevy_cobweb::verif::LIMIT_MSG);
+            bevy_cobweb::verif::set_limit(usize::MAX);
+            emit(json!({"t":"panic","msg":msg,"runaway":runaway as u8}));
             panicked = true;
             break;
         }
@@ -617,7 +624,14 @@ pub fn run_program(cfg: &Config, steps: &mut dyn Iterator<Item = Step>, source: 
     }
 
     let raw = bevy_cobweb::verif::uninstall();
-    let stream = with_state(|st| post::process(st, raw));
+    let mut stream = with_state(|st| post::process(st, raw));
+    // a runaway tree: keep the head of the stream and the final `panic` record
+    if panicked && stream.len() > 6000 && stream.last().map(|o| o["runaway"] == 1).unwrap_or(false)
+    {
+        let last = stream.pop().unwrap();
+        stream.truncate(5000);
+        stream.push(last);
+    }
     let scripts = with_state(|st| st.used_scripts.clone());
     // dropping the app emits drop/sysdrop records nobody listens to any more
     drop(app);
